@@ -116,7 +116,7 @@ def judge_grid(a, b, r0, r1, acc=None):
 DOM = [[0, 1], [10, -10], [0.13, 9.7], [-1, 3], [-2, 3], [0, 1.0000000003]]
 RNG = [[0, 1], [100, 0], [-5, 5], [-1, 640], [-2, 640], [0, 1.0000000005]]
 OPS = ([("domain", d) for d in DOM] + [("range", r) for r in RNG]
-       + [("clamp", True), ("clamp", False), ("nice", None), ("nice", 3), ("copy", None)])
+       + [("clamp", True), ("clamp", False), ("nice", None), ("nice", 3), ("copy", None), ("rmw-range", None), ("rmw-domain", None)])
 PROBES = (-1, 0, .5, 1, 3, 9.7, 20)
 PRE = (0, 50, -5)
 
@@ -136,6 +136,14 @@ def build(hist):
             s.nice(arg) if arg is not None else s.nice()
         elif op == "copy":
             pool.append(s.copy())
+        elif op == "rmw-range":  # read-modify-write: take the list the getter returns, edit it, hand it back
+            r = s.range()
+            r.reverse()
+            s.range(r)
+        elif op == "rmw-domain":
+            d = s.domain()
+            d.reverse()
+            s.domain(d)
     return pool
 
 
